@@ -24,17 +24,23 @@ OBLIGATIONS = [
     {"id": "C01_T2", "theorem": "Iora.C01.T2_no_cleartext_on_tls", "kind": "proved",
      "statement": "on a TLS session no history ever produces a plain ::send; a step that stays in the handshake state leaves the wire untouched"},
     {"id": "C01_T3", "theorem": "Iora.C01.T3_rearm", "kind": "proved",
-     "statement": "after every step of every history: open and queue non-empty => EPOLLOUT registered, by an epoll_ctl issued after the last write attempt (ET and LT)"},
+     "statement": "after every step of every history (unconditional MOD, as extracted): open and queue non-empty => EPOLLOUT registered, by an epoll_ctl issued after the last write attempt (ET and LT)"},
+    {"id": "C01_T3_mod_needed", "theorem": "Iora.C01.T3_needs_unconditional_mod", "kind": "proved",
+     "statement": "if updateInterest skipped the epoll_ctl(MOD) when the mask is unchanged (mask cache), a short write issued by the drain loop leaves an open session with queued bytes and no re-arm after the last write attempt — the regenerated fact updateInterestSkipsUnchangedMask=false (T3_default_mod, gen_conforms) is load-bearing"},
+    {"id": "C01_T3_default_mod", "theorem": "Iora.C01.T3_default_mod", "kind": "proved",
+     "statement": "the model's default configuration has the unconditional MOD, as extracted from updateInterest/modEpoll"},
     {"id": "C01_T3_progress", "theorem": "Iora.C01.T3_progress", "kind": "proved",
      "statement": "a writable event with a first answer wrote n>0 on a non-empty queue strictly decreases the pending byte count; wire grows by exactly that amount"},
     {"id": "C01_T3_drain", "theorem": "Iora.C01.T3_drains", "kind": "proved",
      "statement": "if the environment takes every buffer whole, one writable event empties the queue"},
     {"id": "C01_T3_fair", "theorem": "Iora.C01.T3_fair_drain", "kind": "proved",
      "statement": "if every writable event's first write takes >= 1 byte, then after `pending` writable events the queue is empty or the session was closed by a reported error — for all cut positions / EAGAINs / errors after each first answer"},
+    {"id": "C01_T3_fair_reach", "theorem": "Iora.C01.T3_fair_drain_reachable", "kind": "proved",
+     "statement": "T3_fair_drain for every state reachable from a fresh session by any history: 'queued buffers are non-empty' is derived (send does not enqueue n == 0), not assumed"},
     {"id": "C01_T4", "theorem": "Iora.C01.T4_read_loop", "kind": "proved",
      "statement": "the read loop delivers exactly the data answers before the first non-data answer, in order, each once, stops there, and closes iff that answer is eof/error"},
     {"id": "C01_T5", "theorem": "Iora.C01.T5_per_thread_fifo", "kind": "proved",
-     "statement": "for every schedule of enqueue micro-steps under the mutex: dispatched ++ queued commands of each thread are exactly its first k sequence numbers in order; nothing lost or duplicated"},
+     "statement": "for every schedule of enqueue micro-steps under the mutex and every thread count: the dispatched ++ queued commands of thread t are exactly 0..k-1 in order with k = (completed enqueue calls of t) + (1 if t is between its store and its unlock) — so nothing is lost, duplicated or reordered — and every queued command belongs to one of the n threads"},
     {"id": "C01_T5_mutex_needed", "theorem": "Iora.C01.T5_needs_mutex", "kind": "proved",
      "statement": "without the mutex a 2-thread schedule loses a command (the translator fact is load-bearing)"},
     {"id": "C01_T6", "theorem": "Iora.C01.T6_drop_only_with_close", "kind": "proved",
@@ -48,13 +54,26 @@ OBLIGATIONS = [
     {"id": "C01_obs_readwant", "theorem": "Iora.C01.obs_read_wantWrite_not_armed", "kind": "proved",
      "statement": "observation: SSL_read answering WANT_WRITE in the open state does not register EPOLLOUT (delivery delayed until the next EPOLLIN; nothing lost)"},
     {"id": "C01_gen", "theorem": "Iora.C01.gen_conforms", "kind": "proved",
-     "statement": "the requeue offsets / queue ends / lock scopes extracted from the source are the ones the model mirrors"},
+     "statement": "the requeue offsets / queue ends / lock scopes, updateInterest's mask computation, its single unconditional modEpoll and its call sites, the tlsMode/tlsState assignment sites and the sendAsync / Transport delegation extracted from the source are the ones the model mirrors"},
 ]
 
 BOUNDARY_SIZES = [1, 2, 3, 255, 256, 257, 1459, 1460, 1461, 4095, 4096, 4097, 16383, 16384, 16385, 65535, 65536, 65537]
 
 
 # ------------------------------------------------------------------ generator
+def no_edge(rng, faults, share=(2, 5)):
+    """A share of the short writes (and of SSL_write's WANT_READ) leave the socket writable and get NO fabricated edge (upper case)."""
+    out = []
+    for f in faults:
+        if f[0] in "cmf" and f not in ("m0",) and rng.chance(*share):
+            out.append(f[0].upper() + f[1:])
+        elif f == "r" and rng.chance(*share):
+            out.append("R")
+        else:
+            out.append(f)
+    return out
+
+
 def gen_faults(rng, n, tls, kind):
     """A fault schedule: p pass | c<k> cut to k | m<k> cut to len-k | f<permille> | a EAGAIN | r/w WANT_READ/WRITE | e error."""
     out = []
@@ -134,7 +153,7 @@ def gen_case(rng, idx, quick, corner=None):
     if rng.chance(1, 14):
         wf.insert(rng.below(len(wf) + 1), "e")
         c["expectend"] = 1
-    c["wf"] = wf
+    c["wf"] = no_edge(rng, wf)
     c["rf"] = gen_faults(rng, rng.range(2, 30), tls, "r")
     # spurious WANT_WRITE only: a spurious WANT_READ before the first flight was written is not something OpenSSL can answer
     c["hf"] = ["w" for _ in range(rng.range(1, 3))] if tls and rng.chance(1, 3) else []
@@ -159,6 +178,27 @@ def gen_case(rng, idx, quick, corner=None):
     if rng.chance(1, 16) and total > 10:
         c["pclose"] = rng.range(0, total - 1)
         c["expectend"] = 1
+    # R6: a 1..7-byte peer read with a sleep after each read multiplies into tens of seconds; keep such peers fast
+    if c["peer"][0] < 512:
+        c["peer"][1] = 0
+    # the plain connect window: getpeername answers "not yet" a few times, so sends meet connectPending (client role, plain)
+    c["gp"] = ""
+    if role == "cli" and not tls and rng.chance(1, 3):
+        c["gp"] = "n" * rng.range(1, 3)
+        c["early"] = 1
+        if rng.chance(1, 12):
+            c["gp"] = c["gp"][:-1] + "r"
+            c["expectend"] = 1
+    c["async"] = int(rng.chance(1, 3))            # every second send through sendAsync
+    # a second live session on the same engine with its own payloads
+    c["s2"] = [[rng.choice([1, 100, 5000, 70000, rng.range(1, 2000)]), rng.range(0, 250)] for _ in range(rng.range(1, 5))] if rng.chance(1, 4) else []
+    # unlocked senders: the Transport::send calls of the sender threads really overlap; payloads carry (thread, seq).
+    # Only where nothing ends the session early, so that the peer's stream IS the accepted order.
+    c["nolock"] = 0
+    if thr > 1 and not c["expectend"] and not c["echo"] and rng.chance(1, 2):
+        c["nolock"] = 1
+        c["s2"] = []          # the queue position of a second session's commands among unlocked sends would be unknown to the acceptor
+        c["sends"] = [[max(x[0], 8), x[1], x[2], 0 if rng.chance(3, 4) else x[3]] for x in c["sends"] if x[0] > 0]
     c["cat"] = "random"
     return c
 
@@ -166,7 +206,8 @@ def gen_case(rng, idx, quick, corner=None):
 def base_case(rng, idx, **kw):
     c = {"id": idx, "role": rng.choice(["srv", "cli"]), "tls": int(rng.chance(1, 3)), "et": int(rng.chance(1, 2)), "batch": int(rng.chance(1, 3)),
          "thr": 1, "sndbuf": 0, "rcvbuf": 0, "prcvbuf": 0, "mwq": 1024, "cob": 1, "chunk": 65536, "early": 0, "hsdelay": 0, "expectend": 0,
-         "sends": [], "wf": [], "rf": [], "hf": [], "wd": [], "peer": [65536, 0, 0], "pw": [], "echo": [], "pclose": -1, "cat": "boundary"}
+         "sends": [], "wf": [], "rf": [], "hf": [], "wd": [], "peer": [65536, 0, 0], "pw": [], "echo": [], "pclose": -1, "cat": "boundary",
+         "gp": "", "async": 0, "nolock": 0, "s2": []}
     c.update(kw)
     return c
 
@@ -178,8 +219,33 @@ def gen_boundary_cases(rng, start, n):
     i = start
     cuts = ["c0", "c1", "m1", "m0", "c2", "m2"]
     while len(out) < n:
-        k = len(out) % 5
-        if k == 0:      # cut positions on 1..4-byte payloads, direct write then queued retries
+        k = len(out) % 8
+        if k == 5:      # the plain connect window: connect completion reported late ("not yet" 1-3 times), sends queued meanwhile
+            sends = [[rng.choice([1, 100, 5000, 40000]), rng.range(0, 250), 0, 0] for _ in range(rng.range(1, 6))]
+            c = base_case(rng, i, role="cli", tls=0, early=1, sends=sends, gp="n" * rng.range(1, 3),
+                          wf=no_edge(rng, [rng.choice(["a", "a", "c1", "m1", "p", "f500"]) for _ in range(rng.range(1, 6))]), cat="boundary-connect-window")
+            if len(out) % 16 == 13:
+                c["gp"] = c["gp"][:-1] + "r"       # ... or refused: everything accepted so far goes with the close
+                c["expectend"] = 1
+        elif k == 6:    # short writes from the drain loop with EPOLLOUT already registered and NO kernel edge (ET re-arm by MOD only)
+            sends = [[rng.choice([200000, 5000, 7, 30000]), rng.range(0, 250), 0, 0] for _ in range(rng.range(2, 5))]
+            c = base_case(rng, i, et=1, tls=int(rng.chance(1, 3)), sends=sends, cat="boundary-no-edge-rearm",
+                          wf=[rng.choice(["C1000", "C1", "M1", "F500", "C16384"]) for _ in range(rng.range(2, 8))])
+            if c["tls"]:
+                c["wf"] = [rng.choice([x, "R"]) for x in c["wf"]]
+        elif k == 7:    # a fatal handshake failure with payloads queued in the handshake window; several unlocked senders
+            if len(out) % 16 == 7:
+                sends = [[rng.choice([1, 100, 5000]), rng.range(0, 250), 0, 0] for _ in range(rng.range(1, 4))]
+                c = base_case(rng, i, tls=1, early=1, hsdelay=rng.choice([0, 300]), sends=sends, hf=rng.choice([["e"], ["w", "e"]]), expectend=1,
+                              cat="boundary-handshake-error")
+            else:
+                thr = rng.range(2, 4)
+                sends = [[rng.choice([8, 9, 100, 3000, 20000]), 0, rng.below(thr), 0] for _ in range(rng.range(6, 24))]
+                c = base_case(rng, i, thr=thr, nolock=1, sends=sends, sndbuf=rng.choice([0, 4608]), **{"async": int(rng.chance(1, 2))},
+                              wf=no_edge(rng, [rng.choice(["p", "c1", "m1", "a", "f500"]) for _ in range(rng.range(0, 8))]), cat="boundary-unlocked-senders")
+                if c["tls"]:
+                    c["wf"] = ["w" if x == "a" else x for x in c["wf"]]
+        elif k == 0:      # cut positions on 1..4-byte payloads, direct write then queued retries
             ln = rng.range(1, 4)
             sends = [[ln, rng.range(0, 250), 0, 0] for _ in range(rng.range(1, 4))]
             wf = [rng.choice(cuts + ["a"]) for _ in range(rng.range(2, 12))]
@@ -223,9 +289,10 @@ def case_line(c):
     def lst(xs, sub="."):
         return ",".join(sub.join(str(v) for v in x) if isinstance(x, (list, tuple)) else str(x) for x in xs) if xs else "-"
     return ("case id=%s role=%s tls=%d et=%d batch=%d thr=%d sndbuf=%d rcvbuf=%d prcvbuf=%d mwq=%d cob=%d chunk=%d early=%d hsdelay=%d "
-            "expectend=%d lossy=%d pclose=%s peer=%s sends=%s pw=%s echo=%s wf=%s rf=%s hf=%s wd=%s") % (
+            "expectend=%d lossy=%d async=%d nolock=%d gp=%s s2=%s pclose=%s peer=%s sends=%s pw=%s echo=%s wf=%s rf=%s hf=%s wd=%s") % (
         c["id"], c["role"], c["tls"], c["et"], c["batch"], c["thr"], c["sndbuf"], c["rcvbuf"], c["prcvbuf"], c["mwq"], c["cob"], c["chunk"],
-        c["early"], c["hsdelay"], c["expectend"], int(c["cob"] == 0 and c["mwq"] < 1024), "-" if c["pclose"] < 0 else str(c["pclose"]), ".".join(str(v) for v in c["peer"]),
+        c["early"], c["hsdelay"], c["expectend"], int(c["cob"] == 0 and c["mwq"] < 1024), c.get("async", 0), c.get("nolock", 0),
+        c.get("gp") or "-", lst(c.get("s2") or []), "-" if c["pclose"] < 0 else str(c["pclose"]), ".".join(str(v) for v in c["peer"]),
         lst(c["sends"]), lst(c["pw"]), lst(c.get("echo") or []), lst(c["wf"]), lst(c["rf"]), lst(c["hf"]), lst(c["wd"]))
 
 
@@ -341,8 +408,21 @@ def monitor(c, r):
     # stop() clears _running before it enqueues Shutdown: the loop may already have drained and closed the queue, so the final
     # Shutdown command (Q) is taken from the queue or legitimately refused; every other accepted command must be taken exactly once
     n_acc = len([a for a in r["acc"] if a != "Q"])
+    if c.get("nolock"):          # there the acc line is rebuilt from the peer's stream; the number of accepted sends is counted separately
+        n_acc = len([a for a in r["acc"] if a != "Q" and not a.startswith("T")]) + g("tag_accepted")
     if not (n_acc <= taken <= n_acc + 1) and g("closed_cb") > 0:
         bad.append("T5: enqueue() accepted %d commands (+ Shutdown) but process()/shutdownDrain took %d from the queue (a command was lost or duplicated)" % (n_acc, taken))
+    if c.get("nolock"):
+        if g("tag_err") != -1:
+            bad.append("T5/T1: unlocked concurrent senders: the peer's stream is not a sequence of whole, intact payloads in per-thread order: %s at byte %d (frames ok so far: %d)"
+                       % (f["tag_what"], g("tag_err"), g("tag_frames")))
+        elif f["close_why"] == "shutdown" and not g("stall") and g("tag_frames") != g("tag_accepted"):
+            bad.append("T5: %d sends were accepted from the unlocked sender threads but the peer received %d payloads" % (g("tag_accepted"), g("tag_frames")))
+    if g("s2") and not drop_policy and c["mwq"] >= 1024:
+        if g("s2_diff") != -1:
+            bad.append("T1: second session on the same engine: its peer's stream is not a prefix of what was sent to it (cross-talk / corruption) at byte %d" % g("s2_diff"))
+        elif f["close_why"] == "shutdown" and not g("stall") and g("s2_rx") != g("s2_total"):
+            bad.append("T1: second session on the same engine: %d of %d bytes arrived although nothing closed it before stop()" % (g("s2_rx"), g("s2_total")))
     if g("moved") and not drop_policy:
         bad.append("T1: an SSL_write that had answered WANT_READ/WANT_WRITE was retried with a different buffer or a shorter length (%d time(s))" % g("moved"))
     if g("dlv_diff") != -1:
@@ -381,8 +461,9 @@ def replay_obj(c, r, extra=None):
     return o
 
 
-def check_cases(ctx, hb, cases, workers, dist, tag=""):
+def check_cases(ctx, hb, cases, workers, dist, tag="", solo=False):
     """harness -> monitors -> acceptor. Returns number of cases validated."""
+    unreproduced = []
     results, machinery, counters = run_harness(ctx, hb, cases, workers)
     for k, v in counters.items():
         ctx.extra.setdefault("interposer_counts", {})
@@ -452,6 +533,22 @@ def check_cases(ctx, hb, cases, workers, dist, tag=""):
         dist["segments"] += len(r["segs"])
         if len(ctx.cov["samples"]) < 6 and nontrivial and ctx.rng.chance(1, 20):
             ctx.sample({"op": case_line(c)[:300], "acc": r["acc"][:8], "segs": [s[:120] for s in r["segs"][:6]], "fin": r["fin"]})
+        if fails and all(re.match(r"T[34]: stall", x) for x in fails) and not rejects and not solo:
+            # R6: a stall seen once in a loaded parallel run is re-run alone; only a stall that shows again is a finding
+            again = None
+            for k in range(3):
+                cc = dict(c)
+                cc["id"] = "%s-solo%d" % (c["id"], k)
+                rr, _, _ = run_harness(ctx, hb, [cc], 1)
+                r2 = rr.get(cc["id"])
+                if r2 and r2.get("fin") and monitor(cc, r2):
+                    again = (cc, r2)
+                    break
+            if again is None:
+                unreproduced.append("%s: %s" % (c["id"], fails[0][:120]))
+                continue
+            c, r = again
+            fails = monitor(c, r)
         if fails:
             ctx.violation("property", fails[0], replay_obj(c, r, {"failures": fails[:5], "acceptor": [o for _, o in rejects][:3]}), found_input=True)
         elif rejects:
@@ -461,6 +558,9 @@ def check_cases(ctx, hb, cases, workers, dist, tag=""):
                           replay_obj(c, r, {"broken": {"correspondence": "tcpsession trace inclusion (harness/c01_tcp_stream.cpp vs Model/TcpSession.lean)",
                                                        "detail": o}, "rejected_segment": ls[:2000]}), found_input=False)
     ctx.cov["traces_validated_against_impl"] += len(good)
+    if unreproduced:
+        ctx.notes.append("stall not reproduced in 3 solo re-runs (machinery, not a finding): %s" % unreproduced[:3])
+        raise RuntimeError("a stall reported by the watchdog did not reproduce when the case was re-run alone (load / scheduling): %s" % unreproduced[:2])
     return len(good)
 
 
@@ -492,7 +592,7 @@ def replay(ctx):
         cc = dict(c)
         cc["id"] = "replay%d" % i
         runs.append(cc)
-    check_cases(ctx, hb, runs, 1, dist)
+    check_cases(ctx, hb, runs, 1, dist, solo=True)
     still = bool(ctx.violations)
     for v in ctx.violations:
         print("STILL FAILS:", v.what[:300])
@@ -544,12 +644,17 @@ def run(ctx: Ctx):
     ctx.extra["not_proved"] = [
         "liveness is stated as T3_rearm (a writable event is armed whenever the queue is non-empty) + T3_fair_drain (enough productive writable events empty the queue); that epoll delivers the armed event is an assumption about the kernel, not a theorem",
         "doConnect / onListener / timers / GC closes are C02 (here: 'session closed' is an output); TLS configuration is C07",
+        "EventBatchProcessor (special fds first, then the others) is not modelled in Lean: the routing order lives in the acceptor driver and is tied by the harness only (batching on/off cases)",
+        "the eventfd wake-up is not modelled: that an accepted command is eventually DISPATCHED (process() runs after enqueue's write to the eventfd) is checked by the harness only (every accepted command must be taken: T5 monitor)",
+        "the model merges Session::tlsMode and tlsState into one field; that they are only ever set together is pinned by the translator facts tlsAssignments / tlsDefaults in gen_conforms, not proved about the C++",
+        "T5's micro-step model is tied to enqueue()/process() by the lock-scope facts and by unlocked concurrent senders in the harness (per-thread order + integrity at the peer), not by exhaustive scheduling of the real code",
     ]
     ctx.assumptions += [
         "kernel TCP: bytes accepted by send() are delivered to the peer in order, or the connection ends",
         "OpenSSL record layer: SSL_write returning n>0 means n plaintext bytes will be delivered in order; a WANT_* retry passes the same buffer (checked: same length + content hash in the trace)",
-        "epoll: an EPOLL_CTL_MOD carrying EPOLLOUT on a writable socket yields an event (ET and LT); the interposer re-issues the last registered mask after an injected refusal to emulate the kernel's edge",
-        "one session per engine in the harness; payload sizes 1 B .. 512 KiB (the (int) casts of payload sizes >= 2^31 are outside the explored range)",
+        "epoll: an EPOLL_CTL_MOD carrying EPOLLOUT on a writable socket yields an event (ET and LT). After an injected EAGAIN / WANT_WRITE (which mean 'not writable now') the interposer re-issues the last registered mask, i.e. the edge a kernel delivers when the socket becomes writable again; after the upper-case fault kinds (short write / SSL_write WANT_READ with the socket still writable) NO edge is fabricated, so only the engine's own MOD re-arms an edge-triggered EPOLLOUT",
+        "send() may return a short count while the socket stays writable (legal by POSIX; on Linux e.g. under memory pressure)",
+        "one TRACED session per engine (a second live session is only monitored for cross-talk/loss); payload sizes 1 B .. 512 KiB (the (int) casts of payload sizes >= 2^31 are outside the explored range)",
     ]
     return ctx.finish(level="proof", rule="a case = one fault schedule (config corner, payload sizes, sender threads, write/read/handshake fault lists, delays) run once against the real engine; "
                       "distinct = distinct schedule lines; non-trivial = the real I/O thread saw at least one short write or one EAGAIN/WANT_* on the session")
